@@ -1,9 +1,14 @@
 #!/bin/bash
-# Builds the harness crates once, offline. Checks rebuild incrementally against /repo's current tree.
+# Builds the harness crates once, offline, and warms the build caches of the generated crates.
+# Checks rebuild incrementally against /repo's current tree.
 set -e
-cd "$(dirname "$0")/harness"
+cd "$(dirname "$0")"
 export CARGO_NET_OFFLINE=true
-cargo build --offline -p rtprops -p pbsupport -p expander
-(cd /repo && CARGO_TARGET_DIR=/verif/target/bindgen cargo build --offline -p cglue-bindgen 2>&1 | tail -1) 2>&1 | tail -2
-cargo build --offline --release -p rtprops 2>&1 | tail -2
+(cd harness && cargo build --offline -p rtprops -p pbsupport -p expander 2>&1 | tail -1)
+(cd harness && cargo build --offline --release -p rtprops 2>&1 | tail -1)
+(cd /repo && CARGO_TARGET_DIR=/verif/target/bindgen cargo build --offline -p cglue-bindgen 2>&1 | tail -1)
+# warm-up: one pass over the checks that compile generated crates (results are discarded here)
+for p in C01 C03 C05 C08 C09 C17 C20; do
+  ./check $p --tier quick --no-evidence > /dev/null 2>&1 || true
+done
 echo setup done
